@@ -668,7 +668,7 @@ MUTANTS = [
     _m("reader-box-ymax-zmax-swapped", IMP, '                        "ymax": data[4],\n                        "zmin": data[2],\n                        "zmax": data[5],',
        '                        "ymax": data[5],\n                        "zmin": data[2],\n                        "zmax": data[4],', "R1"),
     _m("elliptic-reader-box-shifted", IMP, '"xmax": bbox_as_array[3],', '"xmax": bbox_as_array[1],', "R1"),
-    _m("writer-order-C", N3D, 'csv_writer.writerow(f.pts.ravel(order="F"))', 'csv_writer.writerow(f.pts.ravel(order="C"))', "R2", control=True),
+    _m("writer-order-C", N3D, 'csv_writer.writerow(f.pts.ravel(order="F"))', 'csv_writer.writerow(f.pts.ravel(order="C"))', "R2"),
     _m("reader-order-default", IMP, 'pts.reshape((3, -1), order="F")', "pts.reshape((3, -1))", "R2"),
     _m("reader-3d-delimiter", IMP, '        spam_reader = csv.reader(csv_file, delimiter=",")\n        # Read the domain first.\n        if has_domain:\n            read_domain',
        '        spam_reader = csv.reader(csv_file, delimiter=";")\n        # Read the domain first.\n        if has_domain:\n            read_domain', "R2"),
@@ -681,7 +681,7 @@ MUTANTS = [
     _m("2d-reader-reshape-coordinate-major", IMP, "pts = data[:, pt_cols].reshape((-1, 2)).T", "pts = data[:, pt_cols].reshape((2, -1))", "R4"),
     _m("2d-reader-edge-numbering", IMP, "(np.arange(0, 2 * num_fracs, 2), np.arange(1, 2 * num_fracs, 2))",
        "(np.arange(0, 2 * num_fracs, 2), np.arange(0, 2 * num_fracs, 2))", "R4"),
-    _m("txt-header-joined-with-comma", TXT, '        header += data.header + " "', '        header += data.header + ","', "R5", control=True),
+    _m("txt-header-joined-with-comma", TXT, '        header += data.header + " "', '        header += data.header + ","', "R5"),
     _m("txt-prefix-not-stripped", TXT, '    header = header.lstrip("# ")\n', "", "R5"),
     _m("txt-skiprows-0", TXT, "skiprows=1,", "skiprows=0,", "R5"),
     _m("txt-fmt-joined-with-comma", TXT, '        fmt += data.format + " "', '        fmt += data.format + ","', "R5"),
